@@ -240,6 +240,20 @@ class Prop:
     def equal(self, model_out: Any, obs: Any) -> bool:
         return model_out == obs
 
+    # hooks for properties whose driver case is derived from the implementation run
+    def driver_input(self, inp: Any, raw: Any) -> Any:
+        return inp
+
+    def driver_obs(self, inp: Any, raw: Any) -> Any:
+        return raw
+
+    def skip_case(self, inp: Any, raw: Any) -> bool:
+        return False
+
+    def replay_input(self, inp: Any, driver_inp: Any) -> Any:
+        """What is stored as the case (must be re-runnable through impl())."""
+        return inp
+
     def setup(self):
         """One-time preparation before impl() calls (imports etc.)."""
 
